@@ -8,8 +8,9 @@ EXTENDS Integers, Sequences, FiniteSets, TLC, Json, IOUtils
 CONSTANT Check
 Rec == ndJsonDeserialize(IOEnv.TRACE)
 
-VARIABLES l, cnt       \* cnt[i]: finite values offered to digest i (summed across merges)
-tvars == <<l, cnt>>
+VARIABLES l, cnt,      \* cnt[i]: finite values offered to digest i (summed across merges)
+          km           \* km[i]: the smallest k among the digests merged into digest i (its own included)
+tvars == <<l, cnt, km>>
 Ev == Rec[l]
 IsEv(op) == l <= Len(Rec) /\ Ev.op = op /\ l' = l + 1
 On(p) == p \in Check
@@ -39,37 +40,41 @@ EncTD(e) ==
 RECURSIVE Lg2Up(_)
 Lg2Up(x) == IF x <= 1 THEN 0 ELSE 1 + Lg2Up((x + 1) \div 2)
 ZUp(w, k) == 24 + 3 * Lg2Up(w \div (2 * k) + 1)
-HeavyOK(e) ==
-  (e.k <= 2000) =>
+HeavyOK(e, k) ==
+  (k <= 2000) =>
     \A i \in 1..Len(e.wq) :
-      LET w3 == e.wq[i][1]  a == e.wq[i][2]  b == e.wq[i][3]  z == ZUp(e.tw, e.k) IN
+      LET w3 == e.wq[i][1]  a == e.wq[i][2]  b == e.wq[i][3]  z == ZUp(e.tw, k) IN
       \* a single value is always a centroid of its own. (IF, not a disjunction: inside an action TLC
       \* explores the disjuncts of every instance as alternatives, 2^n of them)
       IF e.wq[i][4] = 1 THEN TRUE
-      ELSE /\ w3 * e.k * 1000 <= z * (a + 1) * (1000 - a)
-           /\ w3 * e.k * 1000 <= z * (b + 1) * (1000 - b)
+      ELSE /\ w3 * k * 1000 <= z * (a + 1) * (1000 - a)
+           /\ w3 * k * 1000 <= z * (b + 1) * (1000 - b)
 
-TInit == l = 1 /\ cnt = <<>>
-TrRun == IsEv("Run") /\ cnt' = <<>>
+TInit == l = 1 /\ cnt = <<>> /\ km = <<>>
+TrRun == IsEv("Run") /\ cnt' = <<>> /\ km' = <<>>
 
-TrNew == IsEv("DNew") /\ cnt' = Put(cnt, Ev.id, 0)
+TrNew == IsEv("DNew") /\ cnt' = Put(cnt, Ev.id, 0) /\ km' = Put(km, Ev.id, Ev.k)
 
 \* a batch of updates: n finite values (NaN and infinities are ignored by the digest)
-TrUpd == IsEv("DUpd") /\ cnt' = [cnt EXCEPT ![Ev.id] = @ + Ev.n]
+TrUpd == IsEv("DUpd") /\ cnt' = [cnt EXCEPT ![Ev.id] = @ + Ev.n] /\ UNCHANGED km
 
-TrMerge == IsEv("DMerge") /\ cnt' = [cnt EXCEPT ![Ev.id] = @ + cnt[Ev.src]]
+TrMerge ==
+  /\ IsEv("DMerge")
+  /\ cnt' = [cnt EXCEPT ![Ev.id] = @ + cnt[Ev.src]]
+  /\ km' = [km EXCEPT ![Ev.id] = IF km[Ev.src] < @ /\ cnt[Ev.src] > 0 THEN km[Ev.src] ELSE @]
 
 \* copy through freeze/unfreeze or serialize/deserialize
 TrCopy ==
   /\ IsEv("DCopy")
   /\ cnt' = Put(cnt, Ev.to, cnt[Ev.id])
+  /\ km' = Put(km, Ev.to, km[Ev.id])
   /\ On("C11") => Ev.same
 
 \* the original and its deserialized copy taken through the same further updates / the same merge
 TrCont ==
   /\ IsEv("DCont")
   /\ On("C11") => (Ev.upd_same /\ Ev.merge_same)
-  /\ UNCHANGED cnt
+  /\ UNCHANGED <<cnt, km>>
 
 (* checkpoint after compression: centroid list decoded from serialize(), extremes, grids *)
 TrChk ==
@@ -84,7 +89,7 @@ TrChk ==
                        /\ Ev.min = Ev.smin /\ Ev.max = Ev.smax)                        \* exact extremes
      /\ (On("C12") /\ "img" \in DOMAIN Ev) => B(Ev.img) = EncTD(Ev)
      /\ On("C15") => /\ Len(Ev.means) <= 2 * Ev.k + 30      \* bounded number of centroids
-                     /\ (n > 0 => HeavyOK(Ev))
+                     /\ (n > 0 => HeavyOK(Ev, km[Ev.id]))   \* (centroids taken over from a digest of smaller k keep its grain)
                      /\ Ev.len <= 32 + 16 * (2 * Ev.k + 30)
                      /\ (n > 1 => Ev.len = 32 + 16 * Len(Ev.means))
                      \* exact to one sample at the extremes (when the extreme value was offered once: its
@@ -102,16 +107,16 @@ TrChk ==
           /\ Ev.cdf_ok /\ Ev.pmf_ok /\ Ev.empty_split_ok   \* cdf = rank at the split points, pmf sums to 1
           \* rank(quantile(q)) within the digest's resolution of q (10^-6 units)
           /\ \A i \in 1..Len(Ev.rq) : Ev.rq[i] - Ev.q6[i] <= Ev.res6 /\ Ev.q6[i] - Ev.rq[i] <= Ev.res6)
-  /\ UNCHANGED cnt
+  /\ UNCHANGED <<cnt, km>>
 
 \* a digest taken from the specification's enumeration (TDigest.tla), loaded from an image built by
 \* the harness: every rank / quantile answer must equal the specification's exact rational
 TrLoad ==
   /\ IsEv("DLoad")
   /\ (On("C10") \/ On("C13")) => (Ev.bad = <<>> /\ Ev.loaded)
-  /\ UNCHANGED cnt
+  /\ UNCHANGED <<cnt, km>>
 
-TrPanic == IsEv("Panic") /\ FALSE /\ UNCHANGED cnt
+TrPanic == IsEv("Panic") /\ FALSE /\ UNCHANGED <<cnt, km>>
 
 TNext == TrRun \/ TrNew \/ TrUpd \/ TrMerge \/ TrCopy \/ TrCont \/ TrChk \/ TrLoad \/ TrPanic
 TSpec == TInit /\ [][TNext]_tvars
